@@ -81,6 +81,34 @@ Section DP.
       unfold cands in Hm; rewrite map_map in Hm; apply in_map_iff in Hm; destruct Hm as (l & Hl & _); discriminate.
   Qed.
 
+  (* a failed write (the socket raises e): the early outgoing listeners that ran are all that happened - nothing is
+     recorded as written, no ordinary outgoing listener is called, and e reaches the caller *)
+  Theorem failed_write early_out late_out write p e :
+    write p = Raise e -> snd (run_listeners subclass early_out p) = ODone ->
+    write_out subclass early_out late_out write p = (fst (run_listeners subclass early_out p), ORaised e).
+  Proof.
+    intros Hw Hd. unfold write_out. destruct (run_listeners subclass early_out p) as [l1 o1]. cbn [fst snd] in *. subst o1. rewrite Hw. reflexivity.
+  Qed.
+
+  Theorem failed_write_not_announced early_out late_out write p e :
+    write p = Raise e ->
+    (forall pk, ~ In (Written pk) (fst (write_out subclass early_out late_out write p))) /\
+    (forall l, In l late_out -> ~ In (l_id l) (map l_id early_out) ->
+               ~ In (Call (l_id l) (p_key p)) (fst (write_out subclass early_out late_out write p))).
+  Proof.
+    intro Hw.
+    assert (Hsub : forall ev, In ev (fst (write_out subclass early_out late_out write p)) -> In ev (map fst (cands early_out p))).
+    { intros ev. unfold write_out. destruct (run_listeners subclass early_out p) as [l1 o1] eqn:E.
+      rewrite run_listeners_spec in E. pose proof (cut_prefix (cands early_out p)) as (rest & Hp). rewrite E in Hp. cbn [fst] in Hp.
+      intro Hin. rewrite Hp. apply in_or_app. left.
+      destruct o1; [rewrite Hw in Hin|..]; exact Hin. }
+    split.
+    - intros pk Hin. apply Hsub in Hin. unfold cands in Hin. rewrite map_map in Hin. apply in_map_iff in Hin. destruct Hin as (l & Hl & _). discriminate.
+    - intros l _ Hid Hin. apply Hsub in Hin. unfold cands in Hin. rewrite map_map in Hin. apply in_map_iff in Hin.
+      destruct Hin as (l' & Hl' & Hf). cbn [fst] in Hl'. injection Hl' as Hl'. apply filter_In in Hf. destruct Hf as [Hf _].
+      apply Hid. rewrite <- Hl'. apply in_map. exact Hf.
+  Qed.
+
   (* each listener is called at most once per packet (distinct listeners have distinct ids) *)
   Lemma NoDup_prefix {A} (a b : list A) : NoDup (a ++ b) -> NoDup a.
   Proof. induction a as [|x a IH]; intro H; [constructor|]. inversion H; subst. constructor; [intro Hi; apply H2; apply in_or_app; left; exact Hi|apply IH; exact H3]. Qed.
